@@ -488,24 +488,33 @@ theorem tsd_bounds (degree : Bool) {n : Nat} {a0 : Mat} {D : Dendro α} (hn : 2 
 
 
 /-- the value of `tree_sampling_divergence` on the exact terms, with real logarithms (the driver's `tsdValue`
-    evaluates the same expression in `Float`): `score / mutual_information` when `normalized` and the mutual
-    information is positive -/
-noncomputable def tsdReal (T : TsdTerms) (normalized : Bool) : ℝ :=
-  if normalized then (if 0 < klSum T.mutualInfo then klSum T.score / klSum T.mutualInfo else klSum T.score)
+    evaluates the same expression in `Float`): when `normalized` and the mutual information exceeds the threshold
+    `τ` of the code (`1e-10`; the pinned code had `0`), `score / mutual_information` clipped to `[0, 1]` -/
+noncomputable def tsdReal (T : TsdTerms) (normalized : Bool) (τ : ℝ := 0) : ℝ :=
+  if normalized then
+    (if τ < klSum T.mutualInfo then min (max (klSum T.score / klSum T.mutualInfo) 0) 1 else klSum T.score)
   else klSum T.score
 
-theorem tsdReal_range {T : TsdTerms} (h0 : 0 ≤ klSum T.score) (h1 : klSum T.score ≤ klSum T.mutualInfo) :
-    0 ≤ tsdReal T false ∧ 0 ≤ tsdReal T true ∧ tsdReal T true ≤ 1 := by
+theorem tsdReal_range {T : TsdTerms} (h0 : 0 ≤ klSum T.score) (h1 : klSum T.score ≤ klSum T.mutualInfo)
+    {τ : ℝ} (hτ0 : 0 ≤ τ) (hτ1 : τ ≤ 1) :
+    0 ≤ tsdReal T false τ ∧ 0 ≤ tsdReal T true τ ∧ tsdReal T true τ ≤ 1 ∧
+      (τ < klSum T.mutualInfo → tsdReal T true τ = klSum T.score / klSum T.mutualInfo) := by
   unfold tsdReal
   simp only [Bool.false_eq_true, if_false, if_true]
-  refine ⟨h0, ?_, ?_⟩
+  refine ⟨h0, ?_, ?_, ?_⟩
   · split
-    · rename_i hpos; exact div_nonneg h0 (le_of_lt hpos)
+    · exact le_min (le_max_right _ _) (by norm_num)
     · exact h0
   · split
-    · rename_i hpos; exact (div_le_one hpos).mpr h1
+    · exact min_le_right _ _
     · rename_i hnp
-      have : klSum T.mutualInfo ≤ 0 := not_lt.mp hnp
+      have : klSum T.mutualInfo ≤ τ := not_lt.mp hnp
       linarith
+  · intro hpos
+    rw [if_pos hpos]
+    have hmi : 0 < klSum T.mutualInfo := lt_of_le_of_lt hτ0 hpos
+    have hq0 : 0 ≤ klSum T.score / klSum T.mutualInfo := div_nonneg h0 (le_of_lt hmi)
+    have hq1 : klSum T.score / klSum T.mutualInfo ≤ 1 := (div_le_one hmi).mpr h1
+    rw [max_eq_left hq0, min_eq_left hq1]
 
 end SkNet.HMetrics
